@@ -5,6 +5,7 @@ its own oracle from refmodel to every plan observed - the ones returned to the c
 through the scheduler probe, the ones built inside SpectrumAnalyzer.plan() and inside the
 Jdes search.
 """
+import os
 import time
 
 import numpy as np
@@ -208,3 +209,40 @@ def replay_case(pid, case, rec, extra=None):
         extra(case, rec)
     else:
         raise ValueError(f"unknown case kind {kind}")
+
+
+def run_repo_tests(pid, rec, tests=("tests/unit/test_schedulers.py", "tests/integration/test_analysis_api.py",
+                                    "tests/unit/test_utils.py")):
+    """Thorough tier: the repository's own tests as an extra workload, with the monitors on
+    (speckit_verif.pytest_plugin).  Only this property's oracle findings are reported."""
+    import json
+    import subprocess
+    import sys
+    import tempfile
+    repo = os.environ.get("SPECKIT_VERIF_REPO", "/repo")
+    verif = os.path.dirname(os.path.dirname(os.path.abspath(__file__)))
+    out = tempfile.mktemp(suffix=".json")
+    env = dict(os.environ, PYTHONPATH=verif + os.pathsep + repo, SPECKIT_VERIF_PLUGIN_OUT=out)
+    desc = {"kind": "repo-tests", "tests": list(tests)}
+    rec.case(desc, nontrivial=True)
+    try:
+        subprocess.run([sys.executable, "-m", "pytest", "-q", "-x", "-p", "no:cacheprovider",
+                        "-p", "speckit_verif.pytest_plugin", "--timeout=900"] + list(tests),
+                       cwd=repo, env=env, timeout=1500, stdout=subprocess.DEVNULL,
+                       stderr=subprocess.DEVNULL)
+        data = json.load(open(out))
+    except Exception as e:
+        rec.note(f"repo-tests workload not available: {e!r}")
+        return
+    finally:
+        try:
+            os.remove(out)
+        except OSError:
+            pass
+    rec.count("repo_test_plans_observed", data["plans"])
+    rec.count("repo_test_kernel_calls_checked", data["kernel_checked"])
+    rec.note(f"repository tests under monitors: {data['plans']} plans, {data['kernel_checked']} of "
+             f"{data['kernel_calls']} kernel calls checked, pytest exit {data['pytest_exitstatus']}")
+    for v in data["violations"]:
+        if v["kind"] == pid:
+            rec.violation(v["key"], "during the repository's own tests: " + v["msg"])
